@@ -222,8 +222,11 @@ def r4_unknown_uuid(cx):
     true_t = st["otherwise"] if 0 in st["vals"] else st["targets"][0]
     equal_succ = false_t if is_ne else true_t
     sinks = b.calls(r"OpenOptions::open", r"Seek>::seek$", WRITEISH, r"File::create", r"fs::write")
+    # path-sensitive: what is feasible without ever taking the uuid-equal branch (the search may live in a first stage
+    # answering Some(found) / None that a second stage matches on)
+    without_equal, _ = b.explore(avoid={equal_succ})
     for i, t in sinks:
-        ok = b.set_dominates({equal_succ}, i)
+        ok = b.set_dominates({equal_succ}, i) or i not in without_equal
         cx.ob("R4", "R4/%s" % re.sub(r"<.*", "", callee_str(t)).split("::")[-1] + "@" + _short_callee(t), ok, f,
               "%s is reachable only through the uuid-equal branch" % callee_str(t), ln=t.get("ln"))
     # fall-through returns Ok(None): at least one return path avoids the equal branch
